@@ -264,8 +264,11 @@ def integer(ctx, prog, F, b, ty):
                 continue
             seen.add(sig)
             proj.append(sym.Path(conds, p.kind, p.value, p.events, p.env, p.heap, p.end, p.blocks, p.assumed))
+        # (the accumulator has the unsigned twin type: it never exceeds that type's MAX - a limit test against it cannot fail)
+        umax = (1 << bits) - 1
         try:
-            mism, n, dec = table.compare(proj, rows, extra_consts=(max_pos, max_neg) if signed else ())
+            mism, n, dec = table.compare(proj, rows, extra_consts=(max_pos, max_neg) if signed else (),
+                                         constraints=[le(LN, ("int", umax, uty))])
         except table.Undecided as e:
             ctx.violation("TAB-SIGN", key + "|%s" % d, "undecided: %s" % e, b.file())
             continue
